@@ -42,6 +42,14 @@ type caseSpec struct {
 	Mode   string  `json:"mode"` // simple | complex2 | complex3
 	API    string  `json:"api"`  // search | tags | values
 	Family string  `json:"family"`
+	Key    string  `json:"values_key,omitempty"` // api values: the tag whose values are asked for (default a)
+}
+
+func (c *caseSpec) valuesKey() string {
+	if c.Key == "" {
+		return "a"
+	}
+	return c.Key
 }
 
 type outcome struct {
@@ -140,7 +148,7 @@ func (w *worker) runSearch(text string, p Params, mode string, db *Database) (re
 }
 
 // runTags drives PlanTagsV2 / PlanValuesV2 the way TempoService.TagsV2 / ValuesV2 do.
-func (w *worker) runTags(text string, p Params, api string, db *Database) (res []string, planErr error, dbErr error) {
+func (w *worker) runTags(text string, p Params, api, key string, db *Database) (res []string, planErr error, dbErr error) {
 	defer func() {
 		if r := recover(); r != nil {
 			planErr = fmt.Errorf("panic: %v", r)
@@ -154,7 +162,7 @@ func (w *worker) runTags(text string, p Params, api string, db *Database) (res [
 	if api == "tags" {
 		planner, err = traceql_transpiler.PlanTagsV2(script)
 	} else {
-		planner, err = traceql_transpiler.PlanValuesV2(script, "a")
+		planner, err = traceql_transpiler.PlanValuesV2(script, key)
 	}
 	if err != nil {
 		return nil, err, nil
@@ -218,6 +226,17 @@ var deviants = []struct {
 	set     func(*Rules)
 	applies func(c *caseSpec) bool
 }{
+	{"aggregator_argument_loses_every_leading_scope_prefix", func(r *Rules) { r.AggStripAll = true }, func(c *caseSpec) bool {
+		for _, s := range c.Query.Sels {
+			if s.Agg != nil {
+				if k, ok := scopedKey(s.Agg.Attr); ok && k != strippedTwice(s.Agg.Attr) {
+					return true
+				}
+			}
+		}
+		return false
+	}},
+	{"span_name_and_attribute_called_name_share_index_rows", func(r *Rules) { r.NameShared = true }, usesNameKey},
 	{"complex_path_moves_window_start_to_earliest_found_trace", func(r *Rules) { r.PortionFrom = true }, func(c *caseSpec) bool { return portionsOf(c.Mode) > 0 }},
 
 	{"empty_selector_candidates_preselected_differently_from_span_read", func(r *Rules) { r.EmptyEdge = true }, func(c *caseSpec) bool {
@@ -256,6 +275,30 @@ var deviants = []struct {
 	}},
 }
 
+// usesNameKey: some label of the script reads index rows with key "name" (bare `name`, `.name`, `span.name`, ...).
+func usesNameKey(c *caseSpec) bool {
+	isName := func(label string) bool {
+		if label == "name" {
+			return true
+		}
+		k, ok := scopedKey(label)
+		return ok && (k == "name" || strippedTwice(label) == "name")
+	}
+	for _, s := range c.Query.Sels {
+		var ts []*Term
+		s.Expr.terms(&ts)
+		for _, t := range ts {
+			if isName(t.Label) {
+				return true
+			}
+		}
+		if s.Agg != nil && isName(s.Agg.Attr) {
+			return true
+		}
+	}
+	return false
+}
+
 var edgeVariants = []edges{{false, false}, {false, true}, {true, false}, {true, true}}
 
 func onEdge(db *Database, p Params) bool {
@@ -269,6 +312,8 @@ func onEdge(db *Database, p Params) bool {
 	return false
 }
 
+const noReference = "the script uses a bare word the statement gives no meaning to"
+
 // agree: does the implementation's answer satisfy the statement under the given rules (any edge reading)?
 func agree(impl []ImplTrace, db *Database, c *caseSpec, rules Rules, edge bool) (bool, string, bool, bool) {
 	var firstDiff string
@@ -280,6 +325,9 @@ func agree(impl []ImplTrace, db *Database, c *caseSpec, rules Rules, edge bool) 
 		}
 		o := &oracle{rules: rules, portions: portionsOf(c.Mode), hashMod: portionOf}
 		exp, err := o.Eval(db, c.Query, c.Params, ed)
+		if errors.Is(err, errNoReference) {
+			return false, noReference, false, false
+		}
 		if err != nil {
 			return false, "oracle: " + err.Error(), false, false
 		}
@@ -341,6 +389,11 @@ func (w *worker) evaluate(c caseSpec, db *Database, verbose bool) (out outcome) 
 		if exp, err := o.Eval(db, c.Query, c.Params, edges{}); err == nil {
 			fmt.Println("statement:", describe(exp))
 		}
+	}
+	if diff == noReference {
+		// the planner accepted a bare word other than duration / name (e.g. `| avg(b) > 1`): nothing to compare with
+		out.outcome = "bare_word_accepted_without_reference"
+		return out
 	}
 	if strings.HasPrefix(diff, "oracle: ") {
 		out.class, out.what = "harness", diff
@@ -527,7 +580,7 @@ func classifyStmtError(c caseSpec, dbErr error, out outcome) outcome {
 // evaluateTags: TagsV2 / ValuesV2 with a query: the tag names (values of attribute a) of exactly the selected spans.
 func (w *worker) evaluateTags(c caseSpec, db *Database, verbose bool) (out outcome) {
 	out.done = true
-	got, planErr, dbErr := w.runTags(c.Text, c.Params, c.API, db)
+	got, planErr, dbErr := w.runTags(c.Text, c.Params, c.API, c.valuesKey(), db)
 	recs := w.seam.records()
 	out.stmts = len(recs)
 	if verbose {
@@ -544,54 +597,92 @@ func (w *worker) evaluateTags(c caseSpec, db *Database, verbose bool) (out outco
 	if dbErr != nil {
 		return classifyStmtError(c, dbErr, out)
 	}
-	o := &oracle{}
-	m, err := o.match(db.Traces, c.Query, c.Params, edges{})
-	if err != nil {
-		out.class, out.what = "harness", "oracle: "+err.Error()
-		return out
-	}
-	want := map[string]bool{}
-	for ti := range db.Traces {
-		tr := &db.Traces[ti]
-		for _, s := range tr.Spans {
-			if !m.spans[tr.TID][s.SID] {
-				continue
+	// the expected set under the statement, then (if it differs) under the documented deviant rule that applies to
+	// these plans (the shared "name" rows); the attribution is shared with the search cases
+	var firstDiff string
+	for try := 0; try < 2; try++ {
+		var rules Rules
+		if try == 1 {
+			if !usesNameKey(&c) {
+				break
 			}
-			if c.API == "tags" {
-				want["name"], want["service.name"] = true, true
-				for k := range s.Attrs {
-					want[k] = true
+			rules.NameShared = true
+		}
+		o := &oracle{rules: rules}
+		// tag search reads the spans the selector's conditions match; an aggregate filter is not part of it
+		// (the plan only uses the aggregated attribute for its row pre-filter)
+		sq := &Query{Ops: c.Query.Ops}
+		for _, sl := range c.Query.Sels {
+			sl.Agg = nil
+			sq.Sels = append(sq.Sels, sl)
+		}
+		m, err := o.match(db.Traces, sq, c.Params, edges{})
+		if errors.Is(err, errNoReference) {
+			out.outcome = "bare_word_accepted_without_reference"
+			return out
+		}
+		if err != nil {
+			out.class, out.what = "harness", "oracle: "+err.Error()
+			return out
+		}
+		want := map[string]bool{}
+		for ti := range db.Traces {
+			tr := &db.Traces[ti]
+			for _, s := range tr.Spans {
+				if !m.spans[tr.TID][s.SID] {
+					continue
 				}
-			} else if v, ok := s.Attrs["a"]; ok {
-				want[v] = true
+				if c.API == "tags" {
+					want["name"], want["service.name"] = true, true
+					for k := range s.Attrs {
+						want[k] = true
+					}
+				} else if v, ok := s.Attrs[c.valuesKey()]; ok {
+					want[v] = true
+				}
 			}
 		}
-	}
-	out.nonEmpty = len(want) > 0
-	gotSet := map[string]bool{}
-	for _, g := range got {
-		gotSet[g] = true
-	}
-	var extra, missing []string
-	for g := range gotSet {
-		if !want[g] {
-			extra = append(extra, g)
+		if try == 0 {
+			out.nonEmpty = len(want) > 0
+		}
+		gotSet := map[string]bool{}
+		for _, g := range got {
+			gotSet[g] = true
+		}
+		var extra, missing []string
+		for g := range gotSet {
+			if !want[g] {
+				extra = append(extra, g)
+			}
+		}
+		for k := range want {
+			if !gotSet[k] {
+				missing = append(missing, k)
+			}
+		}
+		sort.Strings(extra)
+		sort.Strings(missing)
+		if len(extra) == 0 && (len(missing) == 0 || (c.Params.Limit > 0 && int64(len(gotSet)) == c.Params.Limit)) {
+			if try == 0 {
+				out.outcome = "agree_" + c.API
+				return out
+			}
+			for di, d := range deviants {
+				if d.class == "span_name_and_attribute_called_name_share_index_rows" {
+					out.explMasks = []uint32{1 << di}
+				}
+			}
+			break
+		}
+		if try == 0 {
+			firstDiff = fmt.Sprintf("returned %v; not of the selected spans: %v; missing: %v", got, extra, missing)
 		}
 	}
-	for k := range want {
-		if !gotSet[k] {
-			missing = append(missing, k)
-		}
-	}
-	sort.Strings(extra)
-	sort.Strings(missing)
-	if len(extra) == 0 && (len(missing) == 0 || (c.Params.Limit > 0 && int64(len(gotSet)) == c.Params.Limit)) {
-		out.outcome = "agree_" + c.API
-		return out
-	}
+	out.where = fmt.Sprintf("%s %s on %s window %s", c.API, c.Text, c.DB, c.Window)
+	out.diff = firstDiff
 	out.class = c.API + "_v2_result_differs:" + c.Query.Shape()
 	out.outcome = "unexplained"
-	out.what = fmt.Sprintf("%s %s on %s window %s: returned %v; not of the selected spans: %v; missing: %v", c.API, c.Text, c.DB, c.Window, got, extra, missing)
+	out.what = out.where + ": " + firstDiff
 	return out
 }
 
